@@ -531,6 +531,7 @@ TRANSPARENT = {
     "<str as std::string::ToString>::to_string", "<std::string::String as std::string::ToString>::to_string",
     "<str as std::borrow::ToOwned>::to_owned", "<std::path::Path as std::borrow::ToOwned>::to_owned",
     "std::option::Option::<T>::as_ref", "std::option::Option::<T>::as_mut", "std::option::Option::<T>::take",
+    "std::option::Option::<T>::as_deref", "std::option::Option::<T>::as_deref_mut", "std::result::Result::<T, E>::as_deref",
     "std::option::Option::<&T>::cloned", "std::option::Option::<&T>::copied",
     "std::option::Option::<T>::unwrap_or_default", "std::result::Result::<T, E>::as_ref",
     "std::mem::take", "std::mem::replace",
@@ -1320,7 +1321,7 @@ def _discr_source(body, dl, tidx):
 SUCCESS_VI = {"std::result::Result": 0, "std::option::Option": 1, "std::ops::ControlFlow": 0}
 
 
-def explore(body, cut=None, mark_edges=None, start_env=None, start_blocks=None):
+def explore(body, cut=None, mark_edges=None, start_env=None, start_blocks=None, cut_only_marked=False):
     """Flag- and tag-sensitive exploration from the entry.
     Returns (visited_blocks, marked_blocks, prev) where marked_blocks are the blocks visited on a
     path that took one of `mark_edges` before; prev maps state -> predecessor state (for witnesses).
@@ -1475,7 +1476,7 @@ def explore(body, cut=None, mark_edges=None, start_env=None, start_blocks=None):
         for i, (s, lab) in enumerate(body.raw_succs(bb)):
             if body.blocks[s]["cleanup"]:
                 continue
-            if cut and (bb, i) in cut:
+            if cut and (bb, i) in cut and (mk or not cut_only_marked):
                 continue
             if known is not None and lab is not None:
                 val = known
@@ -1539,8 +1540,16 @@ def region(body, edge_ids, cut=None):
 
 
 def after_edges(body, edge_ids, cut=None):
-    """flag/tag-sensitive region reachable when starting by taking one of the given edges (nothing is assumed about the path
-    before the edge: flags/tags start unknown), honouring `cut`"""
+    """flag/tag-sensitive region reachable after one of the given edges has been taken, honouring `cut` from that point on"""
+    edge_ids = set(edge_ids)
+    if not edge_ids:
+        return set()
+    # explored from the entry, so that what is known on the way to the edge (flags, variants) is kept; `cut` edges are only removed
+    # once one of the given edges has been taken (the way TO the edge is never pruned)
+    vis, marked, prev = explore(body, cut=cut, mark_edges=edge_ids, cut_only_marked=True)
+    if prev:
+        return marked
+    # exploration gave up (state budget): start at the edges with nothing known
     starts = []
     for (b, i) in edge_ids:
         s_ = body.raw_succs(b)[i][0]
